@@ -203,12 +203,14 @@ Section Grammar.
         let field (k : str -> record) :=
           pbind (preceded (tag (tg (fst t) (snd t))) parse_line input)
                 (fun line rest => record_loop f rest (k (trim line))) in
-        let skip :=
+        (* a function, like [field]: the extracted OCaml code must not evaluate it (and with it
+           the rest of the loop) speculatively on every line *)
+        let skip (_ : unit) :=
           pbind (preceded (tag (tg (fst t) (snd t))) parse_line input)
                 (fun _ rest => record_loop f rest r) in
         match fst kt with
         | TAC => field (fun v => mkRec (r_id r) (Some v) (r_name r) (r_desc r) (r_data r) (r_refs r))
-        | TBA | TBS | TBF | TCO => skip
+        | TBA | TBS | TBF | TCO => skip tt
         | TCC =>
             pbind (many1 (preceded (tag (tg "C" "C")) parse_line) input)
                   (fun _ rest => record_loop f rest r)
